@@ -141,20 +141,7 @@ def _check_parity(case, distinct):
     gs = GridSearch(learner(tie=case.get("tie", 0)), R.build_moment(case), constraint_weight=cw0,
                     grid_size=grid_size, grid_limit=prior if prior else grid_limit, **({"sample_weight_name": "w"} if swn else {}))
     def _fit(est):
-        # known finding D27: at a grid point where every signed weight cancels exactly the relabelled problem has one
-        # label and all-zero weights, which scikit-learn's DummyClassifier rejects, so GridSearch.fit raises.  The finding
-        # is identified by this call site and message; such cases are counted (skip class 'D27') and the probe below
-        # re-raises it as long as it reproduces.  Any other exception is a violation as before.
-        try:
-            est.fit(X, y, sensitive_features=sf)
-        except ValueError as e:
-            if "at least one non-zero number" in str(e):
-                if case.get("_probe_d27"):
-                    raise PropertyViolation(f"GridSearch.fit raised {e!r} (all signed weights cancel at a grid point)") from None
-                from vf.runner import Skip
-
-                raise Skip("D27: all signed weights cancel at a grid point (known finding)") from None
-            raise
+        est.fit(X, y, sensitive_features=sf)
 
     if prior:
         # the same estimator object was constructed and used with another grid_limit and another constraint_weight (a sweep):
@@ -507,11 +494,7 @@ _D11_PROBES = [
     # equalized odds: ('label=0', group 0) missing -> one of two basis columns is zero
     _d11_probe("EqualizedOdds", [0, 1, 1, 0, 0, 0], [1, 0, 1, 1, 1, 1], [0, 0, 1, 0, 1, 0]),
 ]
-_D27_PROBE = {"alphabet": "int", "bound": {"kind": "default"}, "cw": 0.5, "grid_limit": 1.0, "grid_size": 10, "groups": [1, 0, 0, 1, 1, 0],
-              "index": "default", "levels": [0, 0, 0, 0, 0, 0], "moment": "DemographicParity", "n_levels": 2, "nested": True,
-              "sf_kind": "list", "swn": False, "tie": 0, "user_grid": True, "x_kind": "ndarray", "y": [0, 1, 1, 0, 0, 1], "y_kind": "list",
-              "_probe_d27": True}
-PROBES = {"D11": [("parity", c) for c in _D11_PROBES], "D27": [("parity", _D27_PROBE)]}
+PROBES = {"D11": [("parity", c) for c in _D11_PROBES]}
 
 SUBS = [
     Sub("parity", check_parity, strategy=_parity_cases, quick=288, thorough=4000, shards=12, shrink_quick=False,
